@@ -58,7 +58,7 @@ def real_groups(tier, seed):
         # three of the six (ISA, type) pairs of the quick ISAs per run, rotating with the seed; every ISA family every run
         ts = ("float", "double")
         combos = [(isa, ts[(k + seed) % 2]) for k, isa in enumerate(core.QUICK_ISAS)]
-    sizes = [2, 5, 8, 9, 12, 33] if tier == "quick" else [1, 2, 3, 4, 5, 7, 8, 9, 12, 16, 17, 20, 32, 33, 64, 65]
+    sizes = [2, 5, 8, 9, 12, 33] if tier == "quick" else [1, 2, 3, 4, 5, 7, 8, 9, 12, 16, 17, 20, 33, 65]
     groups = []
     for isa, t in combos:
         calls = []
